@@ -269,11 +269,11 @@ func ruleReceiptFlow(r *Run) {
 			}
 			r.CheckT("I5", fn.Name+":fields-nonempty", allSet, ev.Pos, path, "a receipt is queued only after its receipt, hash and signature were each found non-empty (not established on this path: %v): a request with an empty field is answered bad request, never forwarded", missing)
 			if ss, ok := ev.Node.(*ast.SendStmt); ok {
-				lit := r.P.compositeOf(fn, ss.Value)
+				lit, lfn := r.P.compositeOfIn(ev.Fn, ss.Value)
 				okP := lit != nil
 				if okP {
 					for _, f := range []string{"Receipt", "Hash", "Signature"} {
-						if r.P.Canon(fn, litField(lit, f)) != "var:req."+f {
+						if r.P.Canon(lfn, litField(lit, f)) != "var:req."+f {
 							okP = false
 						}
 					}
